@@ -154,6 +154,12 @@ def errIsTaw (e : Nat × Nat) : Bool :=
   let transitive : Bool := e.2 &&& 0x40 ≠ 0
   flagsError || !optional || transitive
 
+/-- the pre-repair rule: `!optional || transitive` on the RECEIVED flags only (kept for the witness) -/
+def errIsTawOld (e : Nat × Nat) : Bool :=
+  let optional : Bool := e.2 &&& 0x80 ≠ 0
+  let transitive : Bool := e.2 &&& 0x40 ≠ 0
+  !optional || transitive
+
 def hasCode (attrs : List Attr) (code : Nat) : Bool := attrs.any fun a => a.code == code
 
 def missingMandatory (reach mpReach : Option Reach) (attrs : List Attr) : Bool :=
